@@ -15,7 +15,9 @@ REQUIRED_THEOREMS = ["timer_strobes_exact", "timer_strobe_at_cycle", "fs_only_ne
 RULE = ("cases = (domain clock, fs_only, #interfaces) x stimulus kind; kinds: run from reset to saturation at a "
         "fixed speed; sweep = restart the timer at chosen counter values (thorough: at EVERY counter value "
         "0..counter_max+3, for every configuration and every 2-bit speed value); random start strobes on both "
-        "interfaces with speed changing at random times")
+        "interfaces with speed changing at random times; domreset = a synchronous reset of the usb clock domain "
+        "(ResetInserter around the timer) k cycles after a start, k at the boundary values, then the full count "
+        "from the reset")
 ASSUMPTIONS = [
     "time is measured in cycles of the usb clock domain, the reference point being the first cycle after the "
     "cycle in which a start strobe was high (or the first cycle after reset); this is how the repository's own "
@@ -96,6 +98,14 @@ def gen_cases(tier, rng):
         for k in range(nrand):
             out.append({"clk": clk, "fs_only": fso, "nif": 1 + (k & 1), "kind": "random", "k": k,
                         "seed": rng.u64()})
+    # a reset of the usb clock domain in the middle of a count ("from the most recent timer start (or reset)"):
+    # appended after all other cases so that their seeds do not move
+    for clk, fso in CONFIGS:
+        cm = counter_max(clk, fso)
+        for speed in valid_speeds(fso):
+            ks = rng.shuffle(boundary_values(clk, fso))[:6 if tier == "quick" else 20] + [rng.range(0, cm + 3) for _ in range(3)]
+            out.append({"clk": clk, "fs_only": fso, "nif": 1 + (len(out) & 1), "kind": "domreset",
+                        "speed": speed, "ks": ks, "seed": rng.u64()})
     return out
 
 
@@ -122,6 +132,14 @@ def make_stimulus(desc, rng):
             rows.extend([[0, 0, sp]] * k)
         rows.append(start_row(sp))
         rows.extend([[0, 0, sp]] * (cm + 30))
+    elif kind == "domreset":
+        # start, k cycles later a one-cycle reset of the usb domain (column 0 = 2), then the full count from the reset
+        sp = desc["speed"]
+        for k in desc["ks"]:
+            rows.append(start_row(sp))
+            rows.extend([[0, 0, sp]] * k)
+            rows.append([2, 0, sp])
+            rows.extend([[0, 0, sp]] * (cm + 6))
     else:
         L = 1500 if not fso else 600
         mode = desc.get("k", 0) % 4
@@ -191,7 +209,13 @@ def run_case(desc):
     outs = []
     for i in ifs:
         outs += [i.tx_allowed, i.tx_timeout, i.rx_timeout]
-    rows = sim.run_cycles(dut, ins, outs, stim, domain="usb")
+    # column 0 value 2 = synchronous reset of the usb domain (ResetInserter), no start strobe.  The counter is the
+    # timer's only register, so for the model a domain reset is a start (the driver reads column 0 as a Bool).
+    from amaranth.hdl import ResetInserter
+    rst = Signal(name="usb_domain_reset")
+    top = ResetInserter({"usb": rst})(dut)
+    simstim = [[int(r[0] == 1), r[1], r[2], int(r[0] == 2)] for r in stim]
+    rows = sim.run_cycles(top, ins + [rst], outs, simstim, domain="usb")
     fails = monitor(clk, fso, stim, rows, nif)
     if nif == 1:
         rows = [list(r) + [None, None, None] for r in rows]
